@@ -117,6 +117,49 @@ def count_test(cfg, value_patterns, const):
     return None, None
 
 
+class _NumSub(ast.NodeTransformer):
+    def __init__(self, text, value):
+        self.text, self.value = text, value
+
+    def generic_visit(self, node):
+        if isinstance(node, ast.expr) and nt(node) == self.text:
+            return ast.Constant(value=self.value)
+        return super().generic_visit(node)
+
+
+_NUM_OK = (ast.Expression, ast.Compare, ast.BinOp, ast.UnaryOp, ast.BoolOp, ast.Constant,
+           ast.Add, ast.Sub, ast.Mult, ast.Not, ast.USub, ast.And, ast.Or, ast.Eq, ast.NotEq,
+           ast.Lt, ast.LtE, ast.Gt, ast.GtE, ast.Load)
+
+
+def _first_count_test(ps, G):
+    """truth of "the old count G is 0" (the new count is 1) as decided by a
+    fact of the path that is an arithmetic test on G: the fact must take one
+    value for G == 0 and the other for every G >= 1 (counts are naturals)"""
+    for c, t, p in ps.order:
+        if G not in c:
+            continue
+        try:
+            e = ast.parse(c, mode='eval')
+        except SyntaxError:
+            continue
+        vals = []
+        for g in (0, 1, 2, 3, 7):
+            e2 = _NumSub(G, g).visit(ast.parse(c, mode='eval'))
+            if not all(isinstance(n, _NUM_OK) for n in ast.walk(e2)):
+                vals = None
+                break
+            ast.fix_missing_locations(e2)
+            try:
+                vals.append(bool(eval(compile(e2, '<count-test>', 'eval'), {'__builtins__': {}})))
+            except Exception:
+                vals = None
+                break
+        if vals and all(v != vals[0] for v in vals[1:]):
+            return t == vals[0]
+    return None
+
+
 def extendor_transitions(rep, rule, mod, fname, kind):
     """over path summaries: the per-provided count is stored as old + 1 and
     add_extendor runs exactly when it becomes 1; on removal the new count is
@@ -143,6 +186,10 @@ def extendor_transitions(rep, rule, mod, fname, kind):
                 continue
             N = nt(st[0].val)
             one = ps.facts.get('%s == 1' % N)
+            if one is None:
+                # any test that separates "old count 0" from "old count >= 1"
+                # (previous == 0, not previous, n < 2, ...) decides the same thing
+                one = _first_count_test(ps, 'self._provided.get(provided, 0)')
             if one is None:
                 probs.append('the new count is not compared with 1')
                 continue
